@@ -58,6 +58,16 @@ fn verify_v2(req: &RawRequest, secrets: &HashMap<String, String>) -> V2Facts {
             return mk(Expect::Unspecified(format!("{n} repeated or not UTF-8")));
         }
     }
+    // a sub-resource repeated with values that do not arrive in sorted order: the V2 document orders sub-resources by name
+    // only and says nothing about the values of one name
+    {
+        let subs: Vec<&(String, String)> = pairs.iter().filter(|(n, _)| V2_SUBRESOURCES.contains(&n.as_str())).collect();
+        for (i, a) in subs.iter().enumerate() {
+            if subs[i + 1..].iter().any(|b| b.0 == a.0 && b.1 < a.1) {
+                return mk(Expect::Unspecified("repeated sub-resource with values not in sorted order".into()));
+            }
+        }
+    }
     let vh = vh_bucket_of(req);
     let sig_params: Vec<&(String, String)> = pairs.iter().filter(|(n, _)| n == "Signature").collect();
     if !sig_params.is_empty() {
@@ -177,6 +187,10 @@ pub fn sign_query_pub(req: &mut RawRequest, ak: &str, secret: &str, expires: i64
     sign_query(req, ak, secret, expires);
 }
 
+const UNKNOWN_AK: &str = "AKIDOTHER00000000001";
+/// secrets an attacker can guess for a key the provider does not know
+const GUESSABLE: [(&str, &str); 3] = [("empty-secret", ""), ("own-name-as-secret", UNKNOWN_AK), ("scheme-name-as-secret", "AWS")];
+
 fn sign_header(req: &mut RawRequest, ak: &str, secret: &str) {
     let date = one_header(req, "date").unwrap_or(None).unwrap_or_default();
     let amz = one_header(req, "x-amz-date").unwrap_or(None);
@@ -234,6 +248,28 @@ fn gen_unsigned(g: &mut Rng, vhost: bool) -> RawRequest {
         parts.push(format!("{}={}", *g.pick(&["prefix", "max-keys", "marker", "xother"]), g.alnum(3)));
     }
     g.shuffle(&mut parts);
+    // now and then a long query: one sub-resource repeated with different values among dozens of parameters that are not
+    // signed (what the sub-resource list looks like must not depend on how many other parameters travel with it)
+    if g.chance(1, 8) {
+        let name = *g.pick(&["versionId", "response-content-type", "partNumber", "uploadId", "response-expires"]);
+        parts.retain(|p| p.split('=').next() != Some(name));
+        let mut vals: Vec<String> = (0..2 + g.usize_below(2)).map(|_| g.alnum(4)).collect();
+        if g.chance(3, 4) {
+            vals.sort();
+        }
+        let n = 31 + g.usize_below(60);
+        let mut long: Vec<String> = (0..n).map(|i| format!("{}{i}={}", *g.pick(&["xp", "prefix-x", "zz", "a", "Version", "w"]), g.alnum_upto(0, 3))).collect();
+        for p in parts.drain(..) {
+            let i = g.usize_below(long.len() + 1);
+            long.insert(i, p);
+        }
+        let mut pos: Vec<usize> = (0..vals.len()).map(|_| g.usize_below(long.len() + 1)).collect();
+        pos.sort_unstable();
+        for (k, (p, v)) in pos.iter().zip(vals).enumerate() {
+            long.insert(p + k, format!("{name}={v}"));
+        }
+        parts = long;
+    }
     let uri = if parts.is_empty() { path } else { format!("{path}?{}", parts.join("&")) };
     let mut req = RawRequest::new(method, &uri);
     let host = if vhost { format!("{bucket}.{DOMAIN}") } else { DOMAIN.to_owned() };
@@ -348,6 +384,16 @@ fn mutants(g: &mut Rng, base: &RawRequest, query_mode: bool) -> Vec<(String, Raw
         v
     });
     out.push(("equiv/other-parameter-added".into(), r));
+    let mut r = base.clone();
+    let n = 33 + g.usize_below(40);
+    set_query(&mut r, |mut v| {
+        for i in 0..n {
+            let at = g.usize_below(v.len() + 1);
+            v.insert(at, format!("{}{i}={}", *g.pick(&["xq", "Zq", "a", "versionid"]), i % 7));
+        }
+        v
+    });
+    out.push(("equiv/many-other-parameters-added".into(), r));
     // headers
     for (name, opn) in [("content-md5", "content-md5"), ("content-type", "content-type")] {
         let mut r = base.clone();
@@ -423,6 +469,15 @@ fn mutants(g: &mut Rng, base: &RawRequest, query_mode: bool) -> Vec<(String, Raw
         out.push(("signature/empty".into(), auth_mut(&|a| a[..=a.find(':').unwrap_or(0)].to_owned())));
         out.push(("access-key/other-known".into(), auth_mut(&|a| if a.contains(AK) { a.replacen(AK, AK2, 1) } else { a.replacen(AK2, AK, 1) })));
         out.push(("access-key/unknown".into(), auth_mut(&|a| a.replacen("AKIDVERIF", "AKIDOTHER", 1))));
+        // an unknown key whose signature is CORRECT for a secret an attacker can guess
+        let h1 = http1_form(base);
+        let line = if one_header(&h1, "x-amz-date").unwrap_or(None).is_some() { String::new() } else { one_header(&h1, "date").unwrap_or(None).unwrap_or_default() };
+        if let Some(sts) = v2_string_to_sign(&h1, &line, vh_bucket_of(&h1).as_deref()) {
+            for (name, sec) in GUESSABLE {
+                let sig = v2_signature(sec, &sts);
+                out.push((format!("access-key/unknown-signed-with/{name}"), auth_mut(&|_| format!("AWS {UNKNOWN_AK}:{sig}"))));
+            }
+        }
     } else {
         let qmut = |name: &str, f: &dyn Fn(&str) -> String| -> RawRequest {
             let mut r = base.clone();
@@ -434,6 +489,16 @@ fn mutants(g: &mut Rng, base: &RawRequest, query_mode: bool) -> Vec<(String, Raw
         out.push(("expires/negative".into(), qmut("Expires", &|_| "-1".into())));
         out.push(("access-key/other-known".into(), qmut("AWSAccessKeyId", &|v| if v == AK { AK2.into() } else { AK.into() })));
         out.push(("access-key/unknown".into(), qmut("AWSAccessKeyId", &|_| "AKIDOTHER00000000001".into())));
+        let h1 = http1_form(base);
+        let exp = parts.iter().find_map(|p| p.strip_prefix("Expires=")).unwrap_or("").to_owned();
+        if let Some(sts) = v2_string_to_sign(&h1, &exp, vh_bucket_of(&h1).as_deref()) {
+            for (name, sec) in GUESSABLE {
+                let sig = pct_encode(&v2_signature(sec, &sts), false);
+                let mut r = qmut("AWSAccessKeyId", &|_| UNKNOWN_AK.into());
+                set_query(&mut r, |v| v.into_iter().map(|x| if x.starts_with("Signature=") { format!("Signature={sig}") } else { x }).collect());
+                out.push((format!("access-key/unknown-signed-with/{name}"), r));
+            }
+        }
         out.push(("signature/one-char".into(), qmut("Signature", &|v| {
             let mut b = v.as_bytes().to_vec();
             b[0] = if b[0] == b'A' { b'B' } else { b'A' };
